@@ -1,4 +1,5 @@
 import Skv.Lemmas.Durable
+import Skv.Lemmas.Durable2
 import Skv.Props.C12
 /-!
 # C02 — acknowledged commits survive crashes
@@ -157,3 +158,48 @@ goes to segment 0, a rotation happens before its apply, the old memtable is flus
 theorem finding_straddle :
     let d := DState.run {} [.walAppend, .rotate, .applyAck, .flushOldest]
     d.acked = [0] ∧ d.recover = [] := by decide
+
+
+/-! ## after the repairs `3449869` and `0919665`: no hypothesis on where rotations fall
+
+`D2` (Skv/Model/Durable2.lean) is the same machine with the batch logged again when its apply lands in
+a memtable of a later segment, and with a recovery that may split the last segment between a table and
+the new active memtable.  The theorems below quantify over EVERY run: rotations may fall between a
+batch's WAL append and its apply. -/
+
+/-- **C02 (process crash).** After any run of commits, rotations (wherever they fall), flushes and WAL
+clean-ups, every acknowledged batch is in what recovery rebuilds. -/
+theorem C02_acked_survive_process_crash (ops : List DOp) (b : Nat) (hb : b ∈ (D2.run {} ops).acked) :
+    b ∈ (D2.run {} ops).recover :=
+  acked_recoverable _ (inv2_run ops {} inv2_init) b hb
+
+/-- **C02 (crash, reopen, crash again).** Recovery itself keeps everything recoverable, wherever it has
+to cut the last segment between a table and the new active memtable. -/
+theorem C02_acked_survive_reopen (ops : List DOp) (k : Nat) (b : Nat) (hb : b ∈ (D2.run {} ops).acked) :
+    b ∈ ((D2.run {} ops).reopen false k).recover :=
+  reopen_keeps _ (inv2_run ops {} inv2_init) k b (C02_acked_survive_process_crash ops b hb)
+
+/-- **C03 (nothing else appears).** What recovery rebuilds are batches whose WAL record was written, and
+of those at most one is unacknowledged (the batch in flight). -/
+theorem C03_recovered_only_written (ops : List DOp) (b : Nat) (hb : b ∈ (D2.run {} ops).recover) :
+    b ∈ (D2.run {} ops).acked ∨ (D2.run {} ops).pending = some b := by
+  have hinv := inv2_run ops {} inv2_init
+  apply hinv.ackedOrPending
+  unfold D2.recover at hb
+  rcases List.mem_append.mp hb with hb | hb
+  · exact hinv.written.2.1 b hb
+  · simp only [List.mem_flatMap, List.mem_filter] at hb
+    obtain ⟨s, ⟨hs, _⟩, hbs⟩ := hb
+    exact hinv.written.1 s hs b hbs
+
+/-- the defect repaired by `0919665`, kernel-checked: two acknowledged batches in one segment; recovery
+flushes the first to a table and records the segment as flushed — the second is gone at the next crash -/
+theorem fixed_recovery_retired_a_split_segment :
+    let d := D2.run {} [.walAppend, .applyAck, .walAppend, .applyAck]
+    d.acked = [0, 1] ∧ (d.reopen true 1).recover = [0] ∧ (d.reopen false 1).recover = [0, 0, 1] := by decide
+
+/-- non-vacuity: a rotation between append and apply, then the flush of the rotated memtable and the WAL
+clean-up — the batch is still recovered, from its second record -/
+example :
+    let d := D2.run {} [.walAppend, .rotate, .applyAck, .flushOldest, .cleanupWal]
+    d.acked = [0] ∧ d.recover = [0] ∧ d.segs = [(1, [0])] := by decide
